@@ -19,6 +19,7 @@ if ROOT not in sys.path:
 
 # property id -> spec modules contributing units
 SPEC_MODULES = {
+    "C08": ["specs.c08_checkpoints"],
     "C09": ["specs.c09_lock"],
     "C10": ["specs.c10_semaphore", "specs.c10_limiter"],
     "C11": ["specs.c11_condition"],
@@ -29,12 +30,12 @@ SPEC_MODULES = {
 
 
 def _run_unit(arg):
-    modname, clsname, tier = arg
+    modname, idx, tier = arg
     from segvc import unit as U
 
     os.environ["SEGVC_TIER"] = tier
     mod = importlib.import_module(modname)
-    cls = getattr(mod, clsname)
+    cls = mod.UNITS[idx]
     u = cls()
     res = U.explore(u)
     return {
@@ -55,9 +56,9 @@ def collect_units(prop):
     out = []
     for modname in SPEC_MODULES.get(prop, []):
         mod = importlib.import_module(modname)
-        for cls in mod.UNITS:
+        for i, cls in enumerate(mod.UNITS):
             if prop in cls.props:
-                out.append((modname, cls.__name__))
+                out.append((modname, i, cls.__name__))
     return out
 
 
@@ -80,11 +81,11 @@ def main(argv=None):
     t0 = time.time()
     units = collect_units(args.prop)
     if args.unit:
-        units = [u for u in units if args.unit in u[1]]
+        units = [u for u in units if args.unit in u[2]]
     if not units:
         print(f"no units for {args.prop}")
         return 2
-    jobs = [(m, c, args.tier) for m, c in units]
+    jobs = [(m, i, args.tier) for m, i, _ in units]
     if args.j > 1 and len(jobs) > 1:
         with mp.get_context("fork").Pool(min(args.j, len(jobs))) as pool:
             results = pool.map(_run_unit, jobs, chunksize=1)
